@@ -668,7 +668,7 @@ def channels(ctx):
                         continue
                     cases.append({"src": t.spec, "mode": "vod", "addr": "number", "url": vod_url(t, k, ov, "number"),
                                   "now": "2024-02-03T04:05:06Z", "ov": ov})
-    cases += gen_cases(rng, tracks, ctx.scale(2700, 36000))
+    cases += gen_cases(rng, tracks, ctx.scale(2300, 34000))
     evaluate(cases, ch)
     yield ch
 
